@@ -15,7 +15,8 @@
    NOT yet proved as a theorem (checked by the monitor on every run):
      C04_monitor : forall c t0 ops, c04_ok c ops (fst (srun c t0 ops)) = true
    (after the op in which Cancel id is read no later OHPolled for that incarnation and no
-   response bearing id until a new request with that id is accepted). *)
+   response bearing id until a new request with that id is accepted).  The exact statement, for
+   every transport, is pinned as ServerSpec.stmt_s04 (flag level: stmt_s_v04, stmt_s_v08). *)
 From Coq Require Import List Bool Arith NArith.
 Import ListNotations.
 From TarpcV Require Import Base Transport TimerWheel Server ServerMon ServerWitness ServerState
